@@ -272,7 +272,8 @@ ASSUME = ['rule arguments are JSON-representable values of the modelled universe
 
 
 def main(argv):
-    return run_check('C09', [RoundTripStream(), DocStream()], argv, trusted_base=TRUSTED, assumptions=ASSUME)
+    return run_check('C09', [RoundTripStream(), DocStream()], argv, trusted_base=TRUSTED, assumptions=ASSUME,
+                     translated=('policy',))
 
 
 if __name__ == '__main__':
